@@ -41,3 +41,6 @@ N("c07-n-return-order", "C07", A, ST,
 M("c07-done-waiter-with-error-cancelled", "C07", A, "CancelScope._deliver_cancellation",
   "                if not isinstance(waiter, asyncio.Future) or not waiter.done():",
   "                if (\n                    not isinstance(waiter, asyncio.Future)\n                    or not waiter.done()\n                    or waiter.cancelled()\n                    or waiter.exception() is not None\n                ):", ["R07-f"])
+
+# from seeded change C07/c (round 2)
+M("c07-handle-wait-fast-path", "C07", TASKS, "TaskHandle.wait", "        await self._finished_event.wait()", "        if self.status is TaskHandle.Status.PENDING:\n            await self._finished_event.wait()\n        else:\n            await checkpoint()", ["R07-g"])
